@@ -9,6 +9,11 @@
 #include "settings.h"
 #include "suppressions.h"
 #include "utils.h"
+#include "preprocessor.h"
+#include "standards.h"
+
+#include <simplecpp.h>
+#include <sstream>
 
 #include <list>
 
@@ -224,6 +229,31 @@ VH_CMD(tostr) {
     s.lineNumber = static_cast<int>(vhToLL(a.at(2)));
     s.symbolName = a.at(3);
     return {s.toString()};
+}
+
+// source text -> number of invalidSuppression reports, then every suppression the preprocessor adds:
+// id symbol type line begin end thisAndNextLine
+VH_CMD(inlsup) {
+    Settings settings;
+    settings.inlineSuppressions = true;
+    std::vector<std::string> files;
+    std::istringstream istr(a.at(0));
+    simplecpp::TokenList tokens(istr, files, "f.c");
+    Recorder rec;
+    Preprocessor pp(tokens, settings, rec, Standards::Language::C);
+    SuppressionList sl;
+    pp.inlineSuppressions(sl);
+    Fields out{vhNum(rec.count)};
+    for (const auto& s : sl.getSuppressions()) {
+        out.push_back(s.errorId);
+        out.push_back(s.symbolName);
+        out.push_back(vhNum(static_cast<int>(s.type)));
+        out.push_back(vhNum(s.lineNumber));
+        out.push_back(vhNum(s.lineBegin));
+        out.push_back(vhNum(s.lineEnd));
+        out.push_back(vhBool(s.thisAndNextLine));
+    }
+    return out;
 }
 
 VH_MAIN()
